@@ -27,8 +27,8 @@ def bounded(tier, seed):
 
 MANIFEST = dict(
     category="other",
-    text='Contract-based proof of the ignore-aware validator + per-instance z3 proof over all solver outcomes that constraints are honoured (SymMILP) + bounded comparison with an oracle whose requirement set is modified exactly as documented.',
+    text='Contract-based proofs on the real source: the constraint rows of the ENCODERS (_encode_paths sub-path constraints, _encode_subset_constraints with used = min(1, multiplicity)), the greedy shortcut (accepted only if every constraint is covered), max_occurrence, node expansion of additional starts/ends, the ignore-aware validator + per-instance z3 proof over all solver outcomes that constraints are honoured (SymMILP) + bounded comparison with an oracle whose requirement set is modified exactly as documented.',
     design_ref="DESIGN.md section 3 / C10",
-    note='Known open findings (repetition caps of the cyclic models) listed in known_findings.json. Encoders not under unbounded contract.',
-    technique='contract-based deductive verification of validators (PyVC) + SymMILP + bounded runtime-contract check vs modified oracle',
+    note='Known open findings (repetition caps of the cyclic models) listed in known_findings.json. "Optimum over exactly the admissible solutions" is decided by the bounded oracle comparison (COMPLETE clauses are auxiliary).',
+    technique='contract-based deductive verification of encoders, shortcut and validators (PyVC) + SymMILP + bounded runtime-contract check vs modified oracle',
     engine='pyvc+symmilp+rc')
